@@ -712,6 +712,60 @@ def feed_eof_unit(u: U):
                 "eof is latched, buffered data is kept, the waiter is woken, the transport is resumed (no parser re-entry)")
 
 
+@unit("C08", "iterators", functions=[f"{MOD}:ChunkTupleAsyncStreamIterator.__anext__", f"{MOD}:AsyncStreamIterator.__anext__"])
+def iterators_unit(u: U):
+    """`async for` over a stream (iter_chunks / iter_chunked / iter_any / line iteration): each step hands on exactly what the
+    read function returned and the iteration ends only on the read function's end-of-stream answer - (b'', False) for
+    readchunk, b'' / EofStream for the others.  With the readchunk / read contracts (b'' only at end of stream) the
+    iteration therefore ends only after all data, and a chunk boundary marker (b'', True) in mid-stream is delivered."""
+    from pyvc.stubs import SAwait
+
+    from aiohttp import streams as S
+
+    which = u.choose(2, "iterator")
+    data = u.bytes("chunk")
+    if which == 0:
+        flag = u.bool("end_of_http_chunk")
+        rv0 = (data, flag)
+
+        class _Stream:
+            def readchunk(self):
+                return SAwait(result=rv0, name="readchunk")
+
+        it = u.obj("ChunkTupleAsyncStreamIterator", {"_stream": _Stream()}, {}, shared=False)
+        f = u.load(MOD, "ChunkTupleAsyncStreamIterator.__anext__")
+        out = u.call(f, it)
+        at_end = And(blen(data) == 0, Not(flag))
+        stopped = (not out.ok) and isinstance(out.exc, StopAsyncIteration)
+        u.check("C08.iter.chunks.total", out.ok or stopped, f"only StopAsyncIteration ends the iteration: {out.exc!r}")
+        u.check("C08.iter.chunks.stops_only_at_end_of_stream", at_end if stopped else Not(at_end),
+                "iter_chunks() ends exactly on readchunk's end-of-stream answer (b'', False); an empty piece that carries a "
+                "chunk boundary (b'', True) is mid-stream and is delivered - later chunks follow it",
+                witness={"len": blen(data), "end_of_http_chunk": flag, "stopped": stopped})
+        if out.ok:
+            u.check("C08.iter.chunks.identity", out.value is rv0 or (isinstance(out.value, tuple) and len(out.value) == 2
+                                                                   and out.value[0] is data and out.value[1] is flag),
+                    "the (bytes, boundary) pair is handed on unchanged")
+        return
+    eof_exc = u.choose(2, "read_func_raises_EofStream") == 1
+
+    thrown = []
+
+    def read_func():
+        return SAwait(result=data, raises=(S.EofStream(),) if eof_exc else (), name="read_func", on_raise=thrown.append)
+
+    it = u.obj("AsyncStreamIterator", {"read_func": read_func}, {}, shared=False)
+    f = u.load(MOD, "AsyncStreamIterator.__anext__")
+    out = u.call(f, it)
+    stopped = (not out.ok) and isinstance(out.exc, StopAsyncIteration)
+    u.check("C08.iter.bytes.total", out.ok or stopped, f"only StopAsyncIteration ends the iteration: {out.exc!r}")
+    if out.ok:
+        u.check("C08.iter.bytes.identity", And(out.value is data, blen(data) > 0), "a non-empty read is handed on unchanged")
+    else:
+        u.check("C08.iter.bytes.stops_only_at_end_of_stream", Or(bool(thrown), blen(data) == 0),
+                "the iteration ends only on the read function's end-of-stream answer (b'' or EofStream)")
+
+
 @unit("C08", "protocol.flow", functions=["aiohttp.base_protocol:BaseProtocol.pause_reading",
                                          "aiohttp.base_protocol:BaseProtocol.resume_reading"])
 def protocol_flow(u: U):
